@@ -147,7 +147,7 @@ def run(tier, seed, only=None):
     # ---- the documented special value span_cos_spacing = 2 and concrete CRM planforms: ground queries on the real output
     obs = []
     for wt in (["CRM", "rect2"] if tier == "quick" else ["CRM", "CRM:jig", "CRM:alpha_2.75", "rect2"]):
-        for (nx, ny) in sizes:
+        for (nx, ny) in (sizes + ([(4, 5), (5, 7)] if wt != "rect2" else [])):  # CRM: interior chordwise rows exist from num_x = 3, differ from 4 on
             for symm in (False, True):
                 if wt == "rect2":
                     d = {"num_x": nx, "num_y": ny, "wing_type": "rect", "symmetry": symm, "span_cos_spacing": 2.0, "span": 10.0, "root_chord": 1.0}
